@@ -44,7 +44,8 @@ Print Assumptions C16_lin_ok_implies.
 
 (* Second tie (DESIGN 3.5, docs/gotrans.md): IsStaleRead as translated from store/state.go on this
    run is the hand model is_stale (obs_of = the durations / IsZero the Go function derives). *)
-From RQ Require Import Gen.StoreState Proofs.C16_Gen.
+From RQ Require Import Gen.StoreState.
+From RQ Require Import Proofs.C16_Gen.
 Theorem C16_source_derived_eq : forall (now llc lfu lat : Z) (fsm commit : N) (fresh : Z) (strict : bool),
   IsStaleRead now llc lfu lat (Z.of_N fsm) (Z.of_N commit) fresh strict
   = is_stale (obs_of now llc lfu lat fsm commit) fresh strict.
